@@ -291,6 +291,10 @@ def judgeC02 (op : POp) (out : String) : Expect :=
             .pred (a == exp && b == exp) s!"an exception frame must be reported as {exp}"
         else .pred (a.startsWith "err" && b.startsWith "err") "an exception frame is never a response"
       else
+      if isDisp && fcb.toNat ≥ 128 && d.length > fcIdx + 1 then
+        -- the error bit is set: whatever follows, this is not a response (it is an exception or an error)
+        .pred (a.startsWith "err" && b.startsWith "err") "a frame whose function byte has the error bit set is never returned as a response"
+      else
       match Spec.unframe f d with
       | none =>
         -- a TCP frame that is longer than its own fields say (bytes behind the announced end): the payload handed in is
